@@ -227,6 +227,9 @@ def gen(rng, tier):
         for k in sel:
             for off in range(0, DAY, 3600):
                 cases.append(secs_case(k * DAY + off, 3600))
+    # two threads converting instants of different days at the same time (a cache shared between threads must not mix them)
+    for (a, b) in ((1700000000, 1700000000 + 86400 * 40), (0, 253402300799 - 7), (951782400, 4107542400)):
+        cases.append("par %d %d %d" % (a, b, 20000 if tier == "quick" else 300000))
     return cases
 
 
